@@ -833,8 +833,14 @@ func rollupSlotBaseIsTheFamilyStart(c *eng.Ctx) {
 		f := c.Fn("kv.family.rollup")
 		n := 0
 		var blocks []*ssa.BasicBlock
-		for _, g := range closuresT(f) {
+		// the job body: function literals of rollup, and a named unexported function it starts as the goroutine
+		for _, g := range append(closuresT(f), localFuncs(f)...) {
 			blocks = append(blocks, eng.BlocksT(g)...)
+			for _, h := range closuresT(g) {
+				if h != g {
+					blocks = append(blocks, eng.BlocksT(h)...)
+				}
+			}
 		}
 		for _, b := range blocks {
 			for _, in := range b.Instrs {
@@ -1064,7 +1070,7 @@ func stateMutexReleasedWhenAStageHookPanics(c *eng.Ctx) {
 				continue
 			}
 			ls := p.Locks(g, nil)
-			for _, b := range g.Blocks {
+			for _, b := range eng.BlocksT(g) { // g and the helpers it enters transparently (the hooks may sit in a method of the tracker)
 				for _, in := range b.Instrs {
 					cl, ok := in.(*ssa.Call)
 					if !ok || !cl.Common().IsInvoke() {
@@ -1073,7 +1079,15 @@ func stateMutexReleasedWhenAStageHookPanics(c *eng.Ctx) {
 					if !strings.HasSuffix(cl.Common().Value.Type().String(), "stage.Stage") {
 						continue
 					}
-					if !ls.At(in).HasField(mu, true) {
+					top := in
+					if in.Parent() != g {
+						if t := eng.TopOf(g, eng.Site{Fn: in.Parent(), Instr: in}); t != nil {
+							top = t
+						} else {
+							continue
+						}
+					}
+					if !ls.At(top).HasField(mu, true) {
 						continue
 					}
 					n++
@@ -1088,7 +1102,7 @@ func stateMutexReleasedWhenAStageHookPanics(c *eng.Ctx) {
 							}
 						}
 					}
-					c.Check(len(defs) > 0 && eng.DominatedBy(g, in, defs, nil), fmt.Sprintf("%s.%s:unlock-deferred[%d]", p.FuncKey(g), cl.Common().Method.Name(), n), in, g,
+					c.Check(len(defs) > 0 && eng.DominatedBy(g, top, defs, nil), fmt.Sprintf("%s.%s:unlock-deferred[%d]", p.FuncKey(g), cl.Common().Method.Name(), n), in, g,
 						"Stats() / Complete() of a stage run operator and grouping code (meta-database reads, tracker callbacks); called with the state mutex held, its release is deferred: after a panic there the recover of executeStage / of the pool completes the stage AGAIN and needs the mutex - an explicit Unlock after the hooks leaves it locked and the pipeline never completes",
 						"the mutex is held at this call and its Unlock is not deferred")
 				}
@@ -1100,7 +1114,7 @@ func stateMutexReleasedWhenAStageHookPanics(c *eng.Ctx) {
 			if !strings.HasPrefix(p.FuncKey(g), smT+".") {
 				continue
 			}
-			for i, s := range p.SitesDirect(g, invokeOn(".stage", "Complete")) {
+			for i, s := range p.Sites(g, invokeOn(".stage", "Complete")) {
 				conds, _ := eng.GuardingConds(g, s.Instr)
 				once := false
 				for _, cd := range conds {
@@ -1142,5 +1156,188 @@ func stateMutexReleasedWhenAStageHookPanics(c *eng.Ctx) {
 					"whether a stage's Complete() hook runs depends on a flag of its tracker: the completion that follows a panic of the hook (with the panic as the stage's error) does not run the hook a second time", "Complete() is called on every completion of the stage")
 			}
 		}
+	})
+}
+
+// ---- F55 (C03): the merge-side scanner treats an empty series bucket like the query-side reader, and a failed advance changes nothing ------
+func scannerAdvanceIsAllOrNothing(c *eng.Ctx) {
+	p := c.P
+	const T = "tsdb/tblstore/metricsdata.dataScanner"
+	c.Rule("GUARD", T+".nextContainer{an empty bucket is not an error; a failed advance leaves the scanner where it was}", func() {
+		f := c.Fn(T + ".nextContainer")
+		// (a) no scanner field is assigned on a path that can still fail
+		var failing []eng.Site
+		for _, b := range f.Blocks {
+			if r, ok := b.Instrs[len(b.Instrs)-1].(*ssa.Return); ok && len(r.Results) == 1 && !eng.ReturnsNilError(r) {
+				failing = append(failing, eng.Site{Fn: f, Instr: r})
+			}
+		}
+		n := 0
+		for _, fld := range []string{"highKey", "container", "seriesEntries", "highContainerIdx"} {
+			for i, st := range p.Sites(f, eng.StoreField(T+"."+fld)) {
+				n++
+				w, late := eng.Reaches(f, st.Instr, failing, nil)
+				det := ""
+				if late {
+					det = "after this store the advance can still fail at " + p.InstrPos(w) + ": scan() swallows that error and goes on with a half-advanced scanner (the new high key with the offsets of the old bucket)"
+				}
+				c.Check(!late, fmt.Sprintf("assigned-only-when-the-advance-succeeds:%s[%d]", fld, i), st.Instr, f,
+					"the scanner's position (high key, container, entries, index) is assigned only when nothing can fail any more", det)
+			}
+		}
+		c.Check(n >= 4, "position-stores-found", nil, f, "nextContainer assigns the scanner's position", fmt.Sprintf("%d stores", n))
+		// (b) the writer legitimately produces a bucket of <= 4 bytes (every series of it has an empty entry); the query-side reader
+		// answers "no data" for it - so does the scanner: the short-bucket edge does not lead to an error
+		short := 0
+		for _, b := range f.Blocks {
+			ifi, ok := b.Instrs[len(b.Instrs)-1].(*ssa.If)
+			if !ok {
+				continue
+			}
+			bo, ok := eng.Unwrap(ifi.Cond).(*ssa.BinOp)
+			if !ok {
+				continue
+			}
+			k, isC := eng.ConstInt(bo.Y)
+			lenCall, isLen := eng.Unwrap(bo.X).(*ssa.Call)
+			if !isC || !isLen {
+				continue
+			}
+			if bi, isB := lenCall.Common().Value.(*ssa.Builtin); !isB || bi.Name() != "len" {
+				continue
+			}
+			succ := -1
+			switch {
+			case bo.Op == token.LEQ && k == 4, bo.Op == token.LSS && k == 5:
+				succ = 0
+			case bo.Op == token.GTR && k == 4, bo.Op == token.GEQ && k == 5:
+				succ = 1
+			}
+			if succ < 0 {
+				continue
+			}
+			short++
+			first := b.Succs[succ].Instrs[0]
+			bad := false
+			for _, fr := range failing {
+				if first == fr.Instr {
+					bad = true
+				}
+				if _, reach := eng.PathExists(eng.PathQuery{Fn: f, After: first, Target: func(x ssa.Instruction) bool { return x == fr.Instr }}); reach {
+					// reachable at all is fine only if the success return is reachable too; an unconditional failure is what is refused
+					okToo := false
+					for _, sr := range eng.SuccessReturns(f) {
+						if _, r2 := eng.PathExists(eng.PathQuery{Fn: f, After: first, Target: func(x ssa.Instruction) bool { return x == sr }}); r2 || first == sr {
+							okToo = true
+						}
+					}
+					if !okToo {
+						bad = true
+					}
+				}
+			}
+			c.Check(!bad, fmt.Sprintf("short-bucket-is-no-data[%d]", short), ifi, f,
+				"a series bucket of at most 4 bytes is what the block writer emits when every series of the bucket has an empty entry; the query-side reader returns 'no data' for it, and the merge-side scanner must not fail on it (a failed advance hides the rest of the block, or moves another series' values under this one)",
+				"the short-bucket edge of nextContainer ends in an error")
+		}
+		c.Check(short >= 1, "short-bucket-test-found", nil, f, "nextContainer tests for the short bucket", "")
+		// the sibling: the query-side reader's short-bucket edge returns no error
+	})
+}
+
+// ---- F56 (C03): a compaction whose output is split over several files keeps writing into the CURRENT output -------------------------------
+func compactionStreamFollowsTheOutputFile(c *eng.Ctx) {
+	p := c.P
+	c.Rule("TYPESTATE", "kv.compactFlusherStreamWriter{each entry is prepared on the output file that is open now}", func() {
+		// the mergers take the stream writer once per compaction (metricsdata.NewFlusher, the index mergers) ...
+		once := 0
+		for _, k := range []string{"tsdb/tblstore/metricsdata.NewFlusher", "index/v1.NewIndexKVMerger"} {
+			if f := p.Func(k); f != nil && len(p.Sites(f, invokeOn("", "StreamWriter"))) > 0 {
+				once++
+			}
+		}
+		c.Check(once >= 1, "writer-taken-once-per-compaction", nil, nil, "mergers obtain the stream writer once, in their constructor", fmt.Sprintf("%d constructors", once))
+		// ... and afterAdd closes the output file when it is big enough (state.builder = nil): the writer handed out must therefore
+		// look at the job's CURRENT builder for every entry: its own Prepare opens the next output file when none is open and takes
+		// the stream writer of that builder
+		fin := c.Fn(cjT + ".finishCompactionOutputFile")
+		nClr := 0
+		for _, g := range closuresT(fin) {
+			nClr += len(p.SitesDirect(g, eng.StoreField("kv.compactionState.builder")))
+		}
+		c.Check(nClr > 0, "rollover-closes-the-builder", nil, fin, "finishing an output file clears state.builder", "")
+		pr := p.Func("kv.compactFlusherStreamWriter.Prepare")
+		if pr == nil || pr.Synthetic != "" || len(pr.Blocks) == 0 {
+			c.Check(false, "prepare-goes-through-the-wrapper", nil, nil,
+				"the stream writer a compaction hands out intercepts Prepare: a writer that forwards Prepare to the table writer it was created with stays bound to the FIRST output file - after the roll-over at MaxFileSize the next entry is written to a closed file and its Commit dereferences the nil builder (the compaction goroutine has no recover: the process dies, and dies again after every restart)",
+				"compactFlusherStreamWriter has no Prepare of its own (it is promoted from the embedded table.StreamWriter)")
+			return
+		}
+		open := p.DeepSites(pr, eng.AnyCallTo(cjT+".openCompactionOutputFile"), 3, false)
+		c.Check(len(open) > 0, "prepare-opens-the-next-output", nil, pr, "Prepare opens an output file when none is open", "")
+		sw := p.DeepSites(pr, func(p *eng.Prog, in ssa.Instruction) bool {
+			cl, ok := in.(*ssa.Call)
+			return ok && cl.Common().IsInvoke() && cl.Common().Method.Name() == "StreamWriter" && eng.DependsOnField(cl.Common().Value, "kv.compactionState.builder")
+		}, 3, false)
+		c.Check(len(sw) > 0, "prepare-binds-the-current-builder", nil, pr, "Prepare takes the stream writer of the job's current builder", "")
+		inner := p.Sites(pr, func(p *eng.Prog, in ssa.Instruction) bool {
+			cl, ok := in.(*ssa.Call)
+			return ok && cl.Common().IsInvoke() && cl.Common().Method.Name() == "Prepare"
+		})
+		c.Check(len(inner) > 0, "prepare-forwards", nil, pr, "Prepare forwards to the table's stream writer", "")
+	})
+}
+
+// ---- F58 (C13): an interval the database option accepts is positive ----------------------------------------------------------------------
+func acceptedIntervalsArePositive(c *eng.Ctx) {
+	p := c.P
+	c.Rule("GUARD", "pkg/option.Intervals.IsValid{every accepted interval is positive}", func() {
+		f := c.Fn("pkg/option.Intervals.IsValid")
+		n := 0
+		for _, b := range f.Blocks {
+			ifi, ok := b.Instrs[len(b.Instrs)-1].(*ssa.If)
+			if !ok {
+				continue
+			}
+			bo, ok := eng.Unwrap(ifi.Cond).(*ssa.BinOp)
+			if !ok {
+				continue
+			}
+			x, y, op := bo.X, bo.Y, bo.Op
+			if k, isC := eng.ConstInt(x); isC && k == 0 {
+				x, y = y, x
+				op = map[token.Token]token.Token{token.LSS: token.GTR, token.GTR: token.LSS, token.LEQ: token.GEQ, token.GEQ: token.LEQ}[op]
+			}
+			if k, isC := eng.ConstInt(y); !isC || k != 0 || !eng.DependsOnField(x, "pkg/option.Interval.Interval") {
+				continue
+			}
+			// the edge on which the interval is NOT positive
+			bad := -1
+			switch op {
+			case token.LEQ:
+				bad = 0
+			case token.GTR:
+				bad = 1
+			}
+			if bad < 0 {
+				continue
+			}
+			n++
+			first := b.Succs[bad].Instrs[0]
+			okFail := true
+			for _, sr := range eng.SuccessReturns(f) {
+				if _, reach := eng.PathExists(eng.PathQuery{Fn: f, After: first, Target: func(z ssa.Instruction) bool { return z == sr }}); reach || first == sr {
+					okFail = false
+				}
+			}
+			c.Check(okFail, fmt.Sprintf("non-positive-interval-refused[%d]", n), ifi, f,
+				"an interval of zero or less never validates: CalcSlot and Truncate divide by the interval, a negative one yields negative slots (65356 as uint16)", "the non-positive edge can still reach the success return")
+			everyIterationPasses(c, f, eng.Site{Fn: f, Instr: ifi}, fmt.Sprintf("every-interval-tested[%d]", n), "the test is made for every interval of the list")
+		}
+		c.Check(n >= 1, "positivity-test-found", nil, f,
+			"Intervals.IsValid - the validation every database option passes through - refuses an interval that is not positive (the `required` struct tags of the elements are never reached: the list is validated without `dive`)",
+			"no comparison of Interval.Interval with zero in IsValid")
+		v := c.Fn("pkg/option.DatabaseOption.Validate")
+		c.Check(len(p.Sites(v, eng.AnyCallTo("pkg/option.Intervals.IsValid"))) >= 1, "validate-calls-it", nil, v, "DatabaseOption.Validate calls Intervals.IsValid", "")
 	})
 }
